@@ -240,7 +240,7 @@ class FamilyRun:
             json.dump(tbl, open(tj, "w"))
         else:
             extra = ["0", "1", self.schedules] if suite.get("needs_schedules") else []
-            rc, out = run([exe, prefix, tb] + [str(x) for x in suite.get("args", [])] + extra, 1500)
+            rc, out = run([exe, prefix, tb] + [str(x) for x in suite.get("args", [])] + extra, 1500, env=suite.get("env"))
             if rc != 0:
                 raise Broken("harness %s exited with %d\n%s" % (name, rc, out[-2000:]))
             import table as tablemod
